@@ -132,6 +132,7 @@ func runC01(prop string, res *Result, pool *DrvPool, r *Rng) {
 	for i := 0; i < n; i++ {
 		check("generated", GenDump(r, 6, 5), GenCfg(r))
 	}
+	runLiveC01(res)
 	// many goroutines / deep stacks / long lines
 	for i := 0; i < countN(res.Tier, 6, 200); i++ {
 		gs := GenDump(r, 40, 30)
@@ -163,6 +164,7 @@ func runC08(prop string, res *Result, pool *DrvPool, r *Rng) {
 	runSPEC(prop, res, pool, r.Fork())
 	res.Rule = rule
 	runLowStreams(res, pool, r.Fork())
+	runLiveC08(res)
 	n := countN(res.Tier, 1500, 50000)
 	for i := 0; i < n; i++ {
 		rs := GenRace(r)
